@@ -6,6 +6,8 @@ import (
 	"net"
 	"net/http"
 	"time"
+
+	"github.com/lesismal/nbio/mempool"
 )
 
 type verifNetConn struct {
@@ -58,6 +60,8 @@ func verifHTTPEngine() *Engine {
 	e.ReadLimit = 1 << 20
 	e.MaxHTTPBodySize = 1 << 20
 	e.KeepaliveTime = time.Second
+	e.BodyAllocator = mempool.DefaultMemPool
+	e.emptyRequest = &http.Request{}
 	return e
 }
 
